@@ -127,12 +127,19 @@ func (cx *Connection) Write(p []byte) (n int, err error) {
 // a connection is wrapped by a package that does not support
 // our Connection type (for example, `tls.Server()`).
 func (cx *Connection) Wrap(conn net.Conn) *Connection {
+	buf, offset := cx.buf, cx.offset
+	if offset < len(buf) {
+		// cx still holds prefetched bytes nobody has read. conn reads through
+		// cx, which will serve them in order; handing them to the new
+		// Connection as well would make its readers see them twice.
+		buf, offset = nil, 0
+	}
 	return &Connection{
 		Conn:         conn,
 		Context:      cx.Context,
 		Logger:       cx.Logger,
-		buf:          cx.buf,
-		offset:       cx.offset,
+		buf:          buf,
+		offset:       offset,
 		matching:     cx.matching,
 		bytesRead:    cx.bytesRead,
 		bytesWritten: cx.bytesWritten,
